@@ -254,9 +254,30 @@ def _audit(ast, sg, ag, viol, stats):
     if len(inter) != len(instances) - 1:
         viol("residues_not_a_tree", f"{len(instances)} residue instances joined by {len(inter)} bonds")
     try:
-        ag.to_mol()
+        rm = ag.to_mol()
     except Exception as exc:
+        rm = None
         viol("not_sanitisable", f"to_mol() failed: {exc!r}", ["exc=" + type(exc).__name__])
+    if rm is not None:
+        # the RDKit molecule is the same molecule as the generated graph: atom for atom a copy of the token atom
+        # (element, formal charge), bond for bond the graph's edges
+        if rm.GetNumAtoms() != n or rm.GetNumBonds() != G.number_of_edges():
+            viol("to_mol_differs_from_graph", f"to_mol() has {rm.GetNumAtoms()} atoms / {rm.GetNumBonds()} bonds, the generated graph {n} / {G.number_of_edges()}")
+        else:
+            for (k, atoms) in instances:
+                t = res[k]
+                bad = None
+                for aa, nd in atoms.items():
+                    a = rm.GetAtomWithIdx(nd)
+                    z, q = t.atoms[aa][0], t.atoms[aa][1]
+                    if a.GetAtomicNum() != z or a.GetFormalCharge() != q:
+                        bad = f"atom {aa} of an instance of {t.name} is {a.GetSymbol()}{a.GetFormalCharge():+d} in to_mol(), the token says Z={z} charge {q:+d}"
+                        break
+                if bad:
+                    viol("residue_atom", bad)
+                    break
+            if len(Chem.GetMolFrags(rm)) != 1:
+                viol("not_connected", "to_mol() has more than one fragment")
     stats["residue_instances"] = len(instances)
     stats["atoms"] = n
     return len(instances)
